@@ -403,7 +403,7 @@ theorem readCont_normal (p : Params) (hwf : Wf p) (v : List UInt8) (hv : v.lengt
   simp only [hlen, if_false, u16_sdoHdr0 _ _ _ _ _ r1, byte_sdoHdr2 _ _ _ _ _ c1.1, u16_sdoHdr3 _ _ _ _ _ hidx, r2, c1.2,
     u32_sdoHdr6 _ _ _ _ _ _ hv, drop10_sdoHdr]
   simp only [ne_eq, not_true_eq_false, if_false]
-  simp [segLoop, finish, joinItems, M.pure, pure]
+  simp [segStart, segLoop, finish, joinItems, M.pure, pure]
 
 /-! ### schedules: only the first slot matters when one exchange settles the call -/
 
@@ -569,6 +569,34 @@ theorem wexchange_ok {α : Type} (cnt : Nat) (fulls : List Bool) (body : List UI
   refine ⟨[] ++ [.st0 false, .send (msgOf cnt body), .kick] ++ polls d, by simp [sent], ?_⟩
   exact bind_ok (by rw [mbxRecv_cons _ _ _ rfl]; simp [hdec])
 
+/-- a download that one exchange settles, in the composed system, whatever the server makes of the request -/
+theorem w_exchange (p : Params) (cnt : Nat) (sched : List Slot) (objs : List Obj) (v body : List UInt8)
+    (k : Nat × List UInt8 → M (List UInt8)) (hs : DelaysOnly sched)
+    (hm : sdoWrite p v = (mbxSend body >>= fun _ => mbxRecv >>= k))
+    (hb : body.length < 65536) (hfit : 6 + body.length ≤ p.outSz)
+    (resp : List UInt8) (td : Nat × List UInt8) (srv1 : Srv) (o : R (List UInt8))
+    (hsrv : step (init p.outSz p.inSz objs) (msgOf cnt body) = (srv1, [resp]))
+    (hdec : decodeMail (padTo p.inSz resp) = .ok td)
+    (hcont : ∀ s, k td s = (s, o)) :
+    ∀ n, 1 ≤ n →
+      (system ⟨p, .write v, cnt, sched, objs⟩ n).outcome = o ∧
+      (system ⟨p, .write v, cnt, sched, objs⟩ n).objs = srv1.objs ∧
+      (system ⟨p, .write v, cnt, sched, objs⟩ n).responses = [[resp]] ∧
+      sent (system ⟨p, .write v, cnt, sched, objs⟩ n).trace = [msgOf cnt body] := by
+  obtain ⟨hpre, hfull, htail⟩ := delaysOnly_head sched hs
+  rw [← fulls_head] at hfull
+  apply single_exchange ⟨p, .write v, cnt, sched, objs⟩ (msgOf cnt body) resp srv1 o
+  · simp; exact hfit
+  · obtain ⟨s', h1, h2⟩ := wexchange_blocked cnt (sched.map (·.full)) body k hfull hb
+    simp only [run, master, Setup.fulls, mkMails_nil, hpre, List.map_nil, hm, h1, h2]
+  · exact hsrv
+  · obtain ⟨tr, h1, h2⟩ := wexchange_ok cnt (sched.map (·.full)) body k (hdSlot sched).delay
+      (padTo p.inSz resp) (mkMails p.inSz sched.tail []) td hfull hb hdec
+    simp only [run, master, Setup.fulls, mkMails_one, hpre, List.map_nil, List.nil_append, toMail, hm, h2, hcont, h1]
+  · obtain ⟨tr, h1, h2⟩ := wexchange_ok cnt (sched.map (·.full)) body k (hdSlot sched).delay
+      (padTo p.inSz resp) (mkMails p.inSz sched.tail []) td hfull hb hdec
+    simp only [run, master, Setup.fulls, mkMails_one, hpre, List.map_nil, List.nil_append, toMail, hm, h2, hcont]
+
 /-- an expedited download in the composed system, whatever the server makes of the request -/
 theorem exp_exchange (p : Params) (cnt : Nat) (sched : List Slot) (objs : List Obj) (v : List UInt8) (hwf : Wf p)
     (hs : DelaysOnly sched) (hv : v.length ≤ 4) (hsub : p.sub.isSome = true)
@@ -580,23 +608,9 @@ theorem exp_exchange (p : Params) (cnt : Nat) (sched : List Slot) (objs : List O
       (system ⟨p, .write v, cnt, sched, objs⟩ n).outcome = o ∧
       (system ⟨p, .write v, cnt, sched, objs⟩ n).objs = srv1.objs ∧
       (system ⟨p, .write v, cnt, sched, objs⟩ n).responses = [[resp]] ∧
-      sent (system ⟨p, .write v, cnt, sched, objs⟩ n).trace = [msgOf cnt (expReq p v)] := by
-  obtain ⟨hpre, hfull, htail⟩ := delaysOnly_head sched hs
-  rw [← fulls_head] at hfull
-  have hb : (expReq p v).length < 65536 := by simp [hv]
-  apply single_exchange ⟨p, .write v, cnt, sched, objs⟩ (msgOf cnt (expReq p v)) resp srv1 o
-  · simp [hv]; exact hwf.1
-  · obtain ⟨s', h1, h2⟩ := wexchange_blocked cnt (sched.map (·.full)) (expReq p v) (expCont p) hfull hb
-    simp only [run, master, Setup.fulls, mkMails_nil, hpre, List.map_nil, sdoWrite_exp_eq p v ⟨hv, hsub⟩, h1, h2]
-  · exact hsrv
-  · obtain ⟨tr, h1, h2⟩ := wexchange_ok cnt (sched.map (·.full)) (expReq p v) (expCont p) (hdSlot sched).delay
-      (padTo p.inSz resp) (mkMails p.inSz sched.tail []) td hfull hb hdec
-    simp only [run, master, Setup.fulls, mkMails_one, hpre, List.map_nil, List.nil_append, toMail,
-      sdoWrite_exp_eq p v ⟨hv, hsub⟩, h2, hcont, h1]
-  · obtain ⟨tr, h1, h2⟩ := wexchange_ok cnt (sched.map (·.full)) (expReq p v) (expCont p) (hdSlot sched).delay
-      (padTo p.inSz resp) (mkMails p.inSz sched.tail []) td hfull hb hdec
-    simp only [run, master, Setup.fulls, mkMails_one, hpre, List.map_nil, List.nil_append, toMail,
-      sdoWrite_exp_eq p v ⟨hv, hsub⟩, h2, hcont]
+      sent (system ⟨p, .write v, cnt, sched, objs⟩ n).trace = [msgOf cnt (expReq p v)] :=
+  w_exchange p cnt sched objs v (expReq p v) (expCont p) hs (sdoWrite_exp_eq p v ⟨hv, hsub⟩) (by simp [hv])
+    (by simp [hv]; exact hwf.1) resp td srv1 o hsrv hdec hcont
 
 /-- the command byte of the expedited download request -/
 def expCmd (n : Nat) : Nat := od_DOWN_EXP ||| (((4 - n) <<< 2) &&& 0xc)
@@ -627,7 +641,7 @@ theorem find_store (objs : List Obj) (i s : Nat) (ca : Bool) (o : Obj) (v : List
 
 /-- a conformant server stores the 1..4 data bytes of an expedited download and confirms -/
 theorem step_download_exp (s : Srv) (p : Params) (hwf : Wf p) (cnt : Nat) (o : Obj) (v : List UInt8)
-    (hsz : s.outSz = p.outSz) (hsub : p.sub.isSome = true)
+    (hsz : s.outSz = p.outSz)
     (hfind : find s.objs p.index (subOr1 p) false = some o) (h1 : 1 ≤ v.length) (h4 : v.length ≤ 4)
     (hcap : v.length ≤ o.cap) :
     step s (msgOf cnt (expReq p v)) =
@@ -643,5 +657,683 @@ theorem step_download_exp (s : Srv) (p : Params) (hwf : Wf p) (cnt : Nat) (o : O
   rw [expReq_eq, u16_sdoHdr3 _ _ _ _ _ hidx, byte_sdoHdr5 _ _ _ _ _ hsb, drop6_sdoHdr]
   have hn : ¬ v.length > o.cap := by omega
   simp [hfind, hn, caBit]
+
+/-- the master accepts the server's confirmation of a download with subindex -/
+theorem expCont_confirm (p : Params) (hwf : Wf p) (hsub : p.sub.isSome = true) (s : St) :
+    expCont p (mbx_COE, sdoBody svcSdoRes 0x60 p.index (subOr1 p) (zeros 4)) s = (s, .ok []) := by
+  obtain ⟨ho, hi, hi2, hidx, hsb⟩ := hwf
+  obtain ⟨r1, r2⟩ := coeRes_facts
+  obtain ⟨sb, hsb'⟩ := Option.isSome_iff_exists.mp hsub
+  have hs1 : subOr1 p = sb := by simp [subOr1, hsb']
+  rw [sdoBody_eq]
+  have hlen : ¬ (sdoHdr (svcSdoRes <<< 12) 0x60 p.index (subOr1 p) ++ zeros 4).length < 6 := by simp [sdoHdr_length]
+  unfold expCont
+  simp only [hlen, if_false, u16_sdoHdr0 _ _ _ _ _ r1, byte_sdoHdr5 _ _ _ _ _ hsb, u16_sdoHdr3 _ _ _ _ _ hidx, r2]
+  simp [hsb', hs1, M.pure, pure]
+
+/-- **expedited download**: 1..4 bytes written with a subindex end up in the object byte for byte and the call
+returns — every content, index, subindex, mailbox sizes, counter, and every delay of the confirmation -/
+theorem write_expedited_exact (p : Params) (cnt : Nat) (sched : List Slot) (objs : List Obj) (o : Obj) (v : List UInt8)
+    (hwf : Wf p) (hs : DelaysOnly sched) (hsub : p.sub.isSome = true) (hobj : Holds p objs o)
+    (h1 : 1 ≤ v.length) (h4 : v.length ≤ 4) (hcap : v.length ≤ o.cap) :
+    ∀ n, 1 ≤ n →
+      (system ⟨p, .write v, cnt, sched, objs⟩ n).outcome = .ok [] ∧
+      target ⟨p, .write v, cnt, sched, objs⟩ (system ⟨p, .write v, cnt, sched, objs⟩ n).objs = some v := by
+  have hca : p.sub.isNone = false := by cases h : p.sub <;> simp [h] at hsub ⊢
+  have hobj' : find (init p.outSz p.inSz objs).objs p.index (subOr1 p) false = some o := by
+    simpa [Holds, hca, init] using hobj
+  have hsrv := step_download_exp (init p.outSz p.inSz objs) p hwf cnt o v rfl hobj' h1 h4 hcap
+  simp only [respond, mail_eq] at hsrv
+  have hcoe : mbxCoE = mbx_COE := by decide
+  have hdec : decodeMail (padTo p.inSz (srvMail mbxCoE (init p.outSz p.inSz objs).cnt
+      (sdoBody svcSdoRes 0x60 p.index (subOr1 p) (zeros 4)))) =
+      .ok (mbx_COE, sdoBody svcSdoRes 0x60 p.index (subOr1 p) (zeros 4)) := by
+    rw [← hcoe]
+    exact decodeMail_srvMail _ _ _ _ (by simp [sdoBody_length]; exact hwf.2.1) (by simp [sdoBody_length]) (by decide) (by decide)
+  intro n hn
+  obtain ⟨e1, e2, _, _⟩ := exp_exchange p cnt sched objs v hwf hs h4 hsub _ _ _ (.ok []) hsrv hdec
+    (expCont_confirm p hwf hsub) n hn
+  refine ⟨e1, ?_⟩
+  rw [e2]
+  simp only [target, hca]
+  rw [find_store _ _ _ _ o v hobj']
+  rfl
+
+/-! ### what `sdo_read` writes, for every script of mails (conformant or not) -/
+
+theorem mbxRecv_sent (s : St) : sent (mbxRecv s).1.tr = sent s.tr := by
+  unfold mbxRecv
+  cases s.mails <;> simp
+
+theorem sent_recvCoeL (ms : List Mail) : sent (recvCoeL ms).1 = [] := by
+  induction ms with
+  | nil => rfl
+  | cons m ms ih =>
+    unfold recvCoeL
+    cases decodeMail m.raw with
+    | err e => simp
+    | ok td =>
+      obtain ⟨t, d⟩ := td
+      by_cases h : t = mbx_COE <;> simp [h, ih]
+
+theorem recvCoe_sent (s : St) : sent (recvCoe s).1.tr = sent s.tr := by
+  simp [recvCoe, sent_recvCoeL]
+
+/-- `mbx_send` either fails before writing anything or writes exactly the message for its payload -/
+theorem mbxSend_cases (body : List UInt8) (s : St) :
+    (∃ e, (mbxSend body s).2 = .err e ∧ sent (mbxSend body s).1.tr = sent s.tr) ∨
+    (∃ c, (mbxSend body s).2 = .ok () ∧ sent (mbxSend body s).1.tr = sent s.tr ++ [msgOf c body]) := by
+  obtain ⟨cnt, fulls, mails, tr⟩ := s
+  by_cases hb : body.length ≥ 65536
+  · left
+    cases fulls with
+    | nil => exact ⟨.structError, by simp [mbxSend, bind, M.bind, pollOut, nextCounter, hb, fail, sent]⟩
+    | cons f fs =>
+      cases f with
+      | false => exact ⟨.structError, by simp [mbxSend, bind, M.bind, pollOut, nextCounter, hb, fail, sent]⟩
+      | true =>
+        cases mails with
+        | nil => exact ⟨.blocked, by simp [mbxSend, bind, M.bind, pollOut, discardMail, mbxRecv, sent]⟩
+        | cons m ms =>
+          cases hd : decodeMail m.raw with
+          | err e => exact ⟨e, by simp [mbxSend, bind, M.bind, pollOut, discardMail, mbxRecv, hd, sent]⟩
+          | ok td => exact ⟨.structError, by simp [mbxSend, bind, M.bind, pollOut, discardMail, mbxRecv, hd, nextCounter, hb, fail, sent]⟩
+  · cases fulls with
+    | nil => right; exact ⟨cnt, by simp [mbxSend, bind, M.bind, pollOut, nextCounter, hb, emit, msgOf, sent]⟩
+    | cons f fs =>
+      cases f with
+      | false => right; exact ⟨cnt, by simp [mbxSend, bind, M.bind, pollOut, nextCounter, hb, emit, msgOf, sent]⟩
+      | true =>
+        cases mails with
+        | nil => left; exact ⟨.blocked, by simp [mbxSend, bind, M.bind, pollOut, discardMail, mbxRecv, sent]⟩
+        | cons m ms =>
+          cases hd : decodeMail m.raw with
+          | err e => left; exact ⟨e, by simp [mbxSend, bind, M.bind, pollOut, discardMail, mbxRecv, hd, sent]⟩
+          | ok td =>
+            right
+            exact ⟨cnt, by simp [mbxSend, bind, M.bind, pollOut, discardMail, mbxRecv, hd, nextCounter, hb, emit, msgOf, sent]⟩
+
+/-- the SDO command byte of a mailbox message -/
+def cmdOf (m : List UInt8) : Nat := byte m 8
+
+/-- upload segment requests with toggles alternating from `t` -/
+def altCmds : Nat → Nat → List Nat
+  | 0, _ => []
+  | n + 1, t => (od_SEG_UP_REQ + t) :: altCmds n (t ^^^ 0x10)
+
+theorem cmdOf_msgOf (c : Nat) (body : List UInt8) : cmdOf (msgOf c body) = byte body 2 := by
+  simp [cmdOf, msgOf, mbxHeader, byte, encLE]
+
+theorem finish_fst (size : Nat) (ret : List Item) (rs : Int) (s : St) : (finish size ret rs s).1 = s := by
+  unfold finish
+  split
+  · rfl
+  · cases joinItems ret <;> rfl
+
+theorem segUpReq_facts (p : Params) (t : Nat) (ht : t = 0 ∨ t = 0x10) :
+    (segUpReq p t).length = 10 ∧ byte (segUpReq p t) 2 = od_SEG_UP_REQ + t := by
+  refine ⟨by simp [segUpReq, sdoHdr_length], ?_⟩
+  unfold segUpReq
+  rw [byte_sdoHdr2]
+  rcases ht with rfl | rfl <;> decide
+
+theorem segLoop_sent (p : Params) : ∀ (fuel size : Nat) (ret : List Item) (rs : Int) (t : Nat) (s : St),
+    (t = 0 ∨ t = 0x10) →
+    ∃ ext : List (List UInt8), sent (segLoop p fuel size ret rs t s).1.tr = sent s.tr ++ ext ∧
+      (∀ m ∈ ext, m.length = 16) ∧ ext.map cmdOf = altCmds ext.length t := by
+  intro fuel
+  induction fuel with
+  | zero => intro size ret rs t s _; exact ⟨[], by simp [segLoop, fail], by simp, rfl⟩
+  | succ fuel ih =>
+    intro size ret rs t s ht
+    unfold segLoop
+    by_cases hlt : rs < (size : Int)
+    · simp only [hlt, if_true]
+      obtain ⟨hl, hc⟩ := segUpReq_facts p t ht
+      have ht' : t ^^^ 0x10 = 0 ∨ t ^^^ 0x10 = 0x10 := by rcases ht with rfl | rfl <;> decide
+      cases h1 : mbxSend (segUpReq p t) s with
+      | mk s1 r1 =>
+        rcases mbxSend_cases (segUpReq p t) s with ⟨e, he, hs⟩ | ⟨c, hok, hs⟩
+        · rw [h1] at he hs; simp only at he hs; subst he
+          rw [bind_err h1]
+          exact ⟨[], by simpa using hs, by simp, rfl⟩
+        · rw [h1] at hok hs; simp only at hok hs; subst hok
+          rw [bind_ok h1]
+          have hm : (msgOf c (segUpReq p t)).length = 16 := by simp [hl]
+          have hcm : cmdOf (msgOf c (segUpReq p t)) = od_SEG_UP_REQ + t := by rw [cmdOf_msgOf, hc]
+          have one : ∃ ext : List (List UInt8), sent s1.tr = sent s.tr ++ ext ∧
+              (∀ m ∈ ext, m.length = 16) ∧ ext.map cmdOf = altCmds ext.length t :=
+            ⟨[msgOf c (segUpReq p t)], hs, by simp [hm], by simp [altCmds, hcm]⟩
+          cases h2 : mbxRecv s1 with
+          | mk s2 r2 =>
+            have hs2 : sent s2.tr = sent s1.tr := by have := mbxRecv_sent s1; rw [h2] at this; exact this
+            cases r2 with
+            | err e => rw [bind_err h2]; simpa [hs2] using one
+            | ok td =>
+              rw [bind_ok h2]
+              obtain ⟨typ, data⟩ := td
+              have stop : ∀ x : St × R (List UInt8), x.1 = s2 → ∃ ext : List (List UInt8), sent x.1.tr = sent s.tr ++ ext ∧
+                  (∀ m ∈ ext, m.length = 16) ∧ ext.map cmdOf = altCmds ext.length t := by
+                intro x hx; rw [hx, hs2]; exact one
+              simp only []
+              split
+              · exact stop _ rfl
+              · split
+                · exact stop _ rfl
+                · split
+                  · exact stop _ rfl
+                  · split
+                    · exact stop _ rfl
+                    · split
+                      · exact stop _ (finish_fst _ _ _ _)
+                      · obtain ⟨ext, e1, e2, e3⟩ := ih size _ _ (t ^^^ 0x10) s2 ht'
+                        refine ⟨msgOf c (segUpReq p t) :: ext, ?_, ?_, ?_⟩
+                        · rw [e1, hs2, hs]; simp
+                        · intro m hm'; simp at hm'; rcases hm' with rfl | h
+                          · exact hm
+                          · exact e2 m h
+                        · simp [altCmds, hcm, e3]
+    · simp only [hlt, if_false]
+      exact ⟨[], by simp [finish_fst], by simp, rfl⟩
+
+theorem readCont_sent (p : Params) (data : List UInt8) (s : St) :
+    ∃ ext : List (List UInt8), sent (readCont p data s).1.tr = sent s.tr ++ ext ∧
+      (∀ m ∈ ext, m.length = 16) ∧ ext.map cmdOf = altCmds ext.length 0 := by
+  have stop : ∀ x : St × R (List UInt8), x.1 = s → ∃ ext : List (List UInt8), sent x.1.tr = sent s.tr ++ ext ∧
+      (∀ m ∈ ext, m.length = 16) ∧ ext.map cmdOf = altCmds ext.length 0 := by
+    intro x hx; rw [hx]; exact ⟨[], by simp, by simp, rfl⟩
+  unfold readCont
+  split
+  · exact stop _ rfl
+  · simp only []
+    split
+    · split
+      · exact stop _ rfl
+      · exact stop _ rfl
+    · split
+      · exact stop _ rfl
+      · split
+        · exact stop _ rfl
+        · exact segLoop_sent p _ _ _ _ 0 s (Or.inl rfl)
+
+/-- **what an upload writes, for every script of mails** (conformant server or not, any length, any interleaving):
+every message is the 16-byte mailbox message of an SDO request, so it fits every receive mailbox of the domain;
+the first is the initiate-upload request and the following ones are upload-segment requests whose toggle bits
+are 0, 1, 0, 1, … -/
+theorem read_requests_fit_and_toggle (p : Params) (hwf : Wf p) (cnt : Nat) (fulls : List Bool) (mails : List Mail) :
+    (∀ m ∈ sent (run p .read cnt fulls mails).1, m.length = 16 ∧ m.length ≤ p.outSz) ∧
+    (sent (run p .read cnt fulls mails).1 = [] ∨
+      ∃ k, (sent (run p .read cnt fulls mails).1).map cmdOf = upCmd p :: altCmds k 0) := by
+  have hout : 16 ≤ p.outSz := hwf.1
+  have key : sent (run p .read cnt fulls mails).1 = [] ∨
+      ∃ c ext, sent (run p .read cnt fulls mails).1 = msgOf c (upReq p) :: ext ∧
+        (∀ m ∈ ext, m.length = 16) ∧ ext.map cmdOf = altCmds ext.length 0 := by
+    simp only [run, master, sdoRead_eq]
+    cases h1 : mbxSend (upReq p) ⟨cnt, fulls, mails, []⟩ with
+    | mk s1 r1 =>
+      rcases mbxSend_cases (upReq p) ⟨cnt, fulls, mails, []⟩ with ⟨e, he, hs⟩ | ⟨c, hok, hs⟩
+      · rw [h1] at he hs; simp only at he hs; subst he
+        rw [bind_err h1]; left; simpa [sent] using hs
+      · rw [h1] at hok hs; simp only at hok hs; subst hok
+        rw [bind_ok h1]
+        right
+        cases h2 : recvCoe s1 with
+        | mk s2 r2 =>
+          have hs2 : sent s2.tr = sent s1.tr := by have := recvCoe_sent s1; rw [h2] at this; exact this
+          cases r2 with
+          | err e => rw [bind_err h2]; exact ⟨c, [], by simpa [hs2, sent] using hs, by simp, rfl⟩
+          | ok data =>
+            rw [bind_ok h2]
+            obtain ⟨ext, e1, e2, e3⟩ := readCont_sent p data s2
+            exact ⟨c, ext, by rw [e1, hs2, hs]; simp [sent], e2, e3⟩
+  rcases key with h | ⟨c, ext, h, e2, e3⟩
+  · rw [h]; simp
+  · rw [h]
+    refine ⟨?_, Or.inr ⟨ext.length, ?_⟩⟩
+    · intro m hm; simp at hm
+      rcases hm with rfl | hm
+      · simp; exact hout
+      · have := e2 m hm; omega
+    · have hc : cmdOf (msgOf c (upReq p)) = upCmd p := by
+        rw [cmdOf_msgOf, upReq_eq, byte_sdoHdr2 _ _ _ _ _ (upCmd_facts p).1]
+      simp [hc, e3]
+
+/-! ### every mail of the server fits the send mailbox, whatever it is asked -/
+
+def Good (inSz : Nat) (x : Srv × List (List UInt8)) : Prop := x.1.inSz = inSz ∧ ∀ m ∈ x.2, m.length ≤ inSz
+
+theorem good_mail (s : Srv) (typ : Nat) (body : List UInt8) (n : Nat) (hs : s.inSz = n) (h : 6 + body.length ≤ n) :
+    Good n (mail s typ body) := by
+  rw [mail_eq]
+  exact ⟨hs, by simp; omega⟩
+
+theorem good_mbxError (s : Srv) (code : Nat) (h : 16 ≤ s.inSz) : Good s.inSz (mbxError s code) :=
+  good_mail _ _ _ _ rfl (by simp; omega)
+
+theorem good_abort (s : Srv) (i sub code : Nat) (h : 16 ≤ s.inSz) : Good s.inSz (abort s i sub code) :=
+  good_mail _ _ _ _ rfl (by simp [sdoBody_length]; omega)
+
+theorem good_respond (s : Srv) (cmd i sub : Nat) (rest : List UInt8) (n : Nat) (hs : s.inSz = n) (h : 12 + rest.length ≤ n) :
+    Good n (respond s cmd i sub rest) :=
+  good_mail _ _ _ _ hs (by simp [sdoBody_length]; omega)
+
+theorem good_ite {n : Nat} {c : Prop} [Decidable c] {a b : Srv × List (List UInt8)}
+    (ha : c → Good n a) (hb : ¬ c → Good n b) : Good n (if c then a else b) := by
+  split
+  · exact ha ‹_›
+  · exact hb ‹_›
+
+theorem good_initDownload (s : Srv) (cmd : Nat) (body : List UInt8) (h : 16 ≤ s.inSz) :
+    Good s.inSz (initDownload s cmd body) := by
+  unfold initDownload
+  dsimp only []
+  cases find s.objs (rd16 body 3) (rd8 body 5) (cmd &&& 0x10 != 0) with
+  | none => exact good_abort _ _ _ _ h
+  | some o =>
+    dsimp only []
+    refine good_ite (fun _ => good_ite (fun _ => good_abort _ _ _ _ h) (fun _ => good_respond _ _ _ _ _ _ rfl ?_))
+      (fun _ => good_ite (fun _ => good_abort _ _ _ _ h) (fun _ => good_ite (fun _ => good_abort _ _ _ _ h)
+        (fun _ => good_ite (fun _ => good_abort _ _ _ _ h) (fun _ => good_ite
+          (fun _ => good_respond _ _ _ _ _ _ rfl ?_) (fun _ => good_respond _ _ _ _ _ _ rfl ?_)))))
+    all_goals (simp; omega)
+
+theorem good_downloadSegment (s : Srv) (cmd dlen : Nat) (body : List UInt8) (h : 16 ≤ s.inSz) :
+    Good s.inSz (downloadSegment s cmd dlen body) := by
+  unfold downloadSegment
+  cases s.xfer with
+  | down i sub ca size buf tog =>
+    dsimp only []
+    refine good_ite (fun _ => good_abort _ _ _ _ h) (fun _ => good_ite (fun _ => good_abort _ _ _ _ h)
+      (fun _ => good_ite (fun _ => good_ite (fun _ => good_abort _ _ _ _ h) (fun _ => good_mail _ _ _ _ rfl ?_))
+        (fun _ => good_mail _ _ _ _ rfl ?_)))
+    all_goals (simp; omega)
+  | idle => exact good_abort _ _ _ _ h
+  | up i sub ca rest tog => exact good_abort _ _ _ _ h
+
+theorem good_initUpload (s : Srv) (cmd : Nat) (body : List UInt8) (h : 16 ≤ s.inSz) :
+    Good s.inSz (initUpload s cmd body) := by
+  unfold initUpload
+  dsimp only []
+  cases find s.objs (rd16 body 3) (rd8 body 5) (cmd &&& 0x10 != 0) with
+  | none => exact good_abort _ _ _ _ h
+  | some o =>
+    dsimp only []
+    refine good_ite (fun hc => good_respond _ _ _ _ _ _ rfl ?_) (fun _ => good_respond _ _ _ _ _ _ ?_ ?_)
+    · simp; omega
+    · split <;> rfl
+    · simp; omega
+
+theorem good_uploadSegment (s : Srv) (cmd : Nat) (h : 16 ≤ s.inSz) : Good s.inSz (uploadSegment s cmd) := by
+  unfold uploadSegment
+  cases s.xfer with
+  | up i sub ca rest tog =>
+    dsimp only []
+    refine good_ite (fun _ => good_abort _ _ _ _ h) (fun _ => good_mail _ _ _ _ ?_ ?_)
+    · split <;> rfl
+    · simp; split <;> omega
+  | idle => exact good_abort _ _ _ _ h
+  | down i sub ca size buf tog => exact good_abort _ _ _ _ h
+
+theorem good_step (s : Srv) (msg : List UInt8) (h : 16 ≤ s.inSz) : Good s.inSz (step s msg) := by
+  unfold step
+  refine good_ite (fun _ => ⟨rfl, by simp⟩) (fun _ => ?_)
+  dsimp only []
+  refine good_ite (fun _ => good_mbxError _ _ h) (fun _ => good_ite (fun _ => good_mbxError _ _ h)
+    (fun _ => good_ite (fun _ => good_mbxError _ _ h) (fun _ => good_ite (fun _ => good_mbxError _ _ h)
+      (fun _ => good_ite (fun _ => good_mbxError _ _ h) (fun _ => ?_)))))
+  split
+  · exact good_initDownload _ _ _ h
+  · exact good_downloadSegment _ _ _ _ h
+  · exact good_initUpload _ _ _ h
+  · exact good_uploadSegment _ _ h
+  · exact ⟨rfl, by simp⟩
+  · exact good_abort _ _ _ _ h
+
+/-- **every response fits**: whatever requests arrive, in whatever state, no mail of the server is longer than
+the send mailbox -/
+theorem server_responses_fit (s : Srv) (reqs : List (List UInt8)) (h : 16 ≤ s.inSz) :
+    ∀ rs ∈ (serveAll s reqs).2, ∀ m ∈ rs, m.length ≤ s.inSz := by
+  induction reqs generalizing s with
+  | nil => simp [serveAll]
+  | cons r reqs ih =>
+    obtain ⟨g1, g2⟩ := good_step s r h
+    simp only [serveAll]
+    intro rs hrs
+    simp at hrs
+    rcases hrs with rfl | hrs
+    · exact g2
+    · have := ih (step s r).1 (by rw [g1]; exact h) rs hrs
+      rw [g1] at this; exact this
+
+/-! ## the modes the code gets wrong -/
+
+/-- the run of the composed system settles, and what it settles on satisfies `P` -/
+def Eventually (c : Setup) (P : Result → Prop) : Prop := ∃ N, ∀ n, N ≤ n → P (system c n)
+
+theorem iter_add {α : Type} (f : α → α) (a b : Nat) (x : α) : iter f (a + b) x = iter f b (iter f a x) := by
+  induction a generalizing x with
+  | zero => simp [iter]
+  | succ a ih => rw [Nat.succ_add]; simp [iter, ih]
+
+/-- once a round changes nothing the run has settled -/
+theorem system_stable (c : Setup) (k : Nat) (h : round c (mailsAfter c k) = mailsAfter c k) :
+    ∀ n, k ≤ n → system c n = system c k := by
+  intro n hn
+  obtain ⟨j, rfl⟩ : ∃ j, n = k + j := ⟨n - k, by omega⟩
+  have : mailsAfter c (k + j) = mailsAfter c k := by
+    unfold mailsAfter at h ⊢
+    rw [iter_add, iter_fix _ _ h]
+  simp only [system, this]
+
+theorem not_eventually (c : Setup) (k : Nat) (P : Result → Prop)
+    (hfix : round c (mailsAfter c k) = mailsAfter c k) (hP : ¬ P (system c k)) : ¬ Eventually c P := by
+  rintro ⟨N, hN⟩
+  have := hN (max N k) (Nat.le_max_left _ _)
+  rw [system_stable c k hfix _ (Nat.le_max_right _ _)] at this
+  exact hP this
+
+theorem schedOk_nil (inSz : Nat) : SchedOk inSz [] := by intro sl h; cases h
+theorem delaysOnly_nil : DelaysOnly [] := by intro sl h; cases h
+
+/-! ### segmented upload -/
+
+/-- full strength: an object that does not fit the first response is returned byte for byte as well -/
+def read_segmented_full : Prop :=
+  ∀ (p : Params) (cnt : Nat) (sched : List Slot) (objs : List Obj) (o : Obj),
+    Wf p → SchedOk p.inSz sched → Holds p objs o → p.inSz < o.val.length + 16 →
+    Eventually ⟨p, .read, cnt, sched, objs⟩ (fun r => r.outcome = .ok o.val)
+
+/-- 24-byte mailboxes, 23 bytes: 8 in the first response, 15 in one full segment -/
+def segWitness : Setup :=
+  ⟨⟨24, 24, 0x2000, some 1⟩, .read, 0, [],
+   [⟨0x2000, 1, false, 32, [1,2,3,4,5,6,7,8,9,10,11,12,13,14,15,16,17,18,19,20,21,22,23]⟩]⟩
+
+/-- 24-byte mailboxes, 9 bytes: 8 in the first response, 1 in a last segment padded to 7 -/
+def segWitnessShort : Setup :=
+  ⟨⟨24, 24, 0x2000, some 1⟩, .read, 0, [], [⟨0x2000, 1, false, 32, [1,2,3,4,5,6,7,8,9]⟩]⟩
+
+/-- `ret += data[3:]` put ints into the list: `b"".join(ret)` raises TypeError -/
+theorem segWitness_typeError : (system segWitness 2).outcome = .err .typeError := by decide +kernel
+/-- the padded last segment is counted with its padding: "expected 9 bytes, got 15" -/
+theorem segWitnessShort_ethercat : (system segWitnessShort 2).outcome = .err .ethercat := by decide +kernel
+
+theorem read_segmented_refuted : ¬ read_segmented_full := by
+  intro h
+  have hwf : Wf segWitness.p := by unfold Wf subOr1; decide
+  refine not_eventually segWitness 2 _ (by decide +kernel) ?_
+    (h segWitness.p 0 [] segWitness.objs ⟨0x2000, 1, false, 32, [1,2,3,4,5,6,7,8,9,10,11,12,13,14,15,16,17,18,19,20,21,22,23]⟩
+      hwf (schedOk_nil _) (by unfold Holds; decide) (by decide))
+  rw [segWitness_typeError]
+  decide
+
+/-- what remains of the property for segmented uploads (and every other upload): whatever the length, the schedule and
+the number of rounds, the master's messages are 16-byte requests that fit, their toggles alternate from 0, and every
+response of the server fits the send mailbox -/
+theorem read_segmented_partial (p : Params) (cnt : Nat) (sched : List Slot) (objs : List Obj) (hwf : Wf p) (n : Nat) :
+    (∀ m ∈ sent (system ⟨p, .read, cnt, sched, objs⟩ n).trace, m.length ≤ p.outSz) ∧
+    (sent (system ⟨p, .read, cnt, sched, objs⟩ n).trace = [] ∨
+      ∃ k, (sent (system ⟨p, .read, cnt, sched, objs⟩ n).trace).map cmdOf = upCmd p :: altCmds k 0) ∧
+    (∀ rs ∈ (system ⟨p, .read, cnt, sched, objs⟩ n).responses, ∀ m ∈ rs, m.length ≤ p.inSz) := by
+  obtain ⟨h1, h2⟩ := read_requests_fit_and_toggle p hwf cnt (sched.map (·.full)) (mailsAfter ⟨p, .read, cnt, sched, objs⟩ n)
+  refine ⟨fun m hm => (h1 m hm).2, h2, ?_⟩
+  exact server_responses_fit (init p.outSz p.inSz objs) _ hwf.2.1
+
+/-! ### non-expedited download -/
+
+/-- full strength: more than 4 bytes written with a subindex reach the object byte for byte -/
+def write_normal_full : Prop :=
+  ∀ (p : Params) (cnt : Nat) (sched : List Slot) (objs : List Obj) (o : Obj) (v : List UInt8),
+    Wf p → DelaysOnly sched → p.sub.isSome = true → Holds p objs o → 4 < v.length → v.length ≤ o.cap →
+    Eventually ⟨p, .write v, cnt, sched, objs⟩
+      (fun r => r.outcome = .ok [] ∧ target ⟨p, .write v, cnt, sched, objs⟩ r.objs = some v)
+
+/-- 32-byte mailboxes, five bytes into an object that can hold eight -/
+def normWitness : Setup :=
+  ⟨⟨32, 32, 0x2000, some 1⟩, .write [1,2,3,4,5], 0, [], [⟨0x2000, 1, false, 8, [9]⟩]⟩
+
+/-- the complete size is sent as 0, the server aborts, `sdo_write` raises and the object keeps its old value -/
+theorem normWitness_run : (system normWitness 1).outcome = .err .ethercat ∧
+    target normWitness (system normWitness 1).objs = some [9] := by decide +kernel
+
+theorem write_normal_refuted : ¬ write_normal_full := by
+  intro h
+  have hwf : Wf normWitness.p := by unfold Wf subOr1; decide
+  refine not_eventually normWitness 1 _ (by decide +kernel) ?_
+    (h normWitness.p 0 [] normWitness.objs ⟨0x2000, 1, false, 8, [9]⟩ [1,2,3,4,5]
+      hwf delaysOnly_nil (by decide) (by unfold Holds; decide) (by decide) (by decide))
+  rw [normWitness_run.1]
+  decide
+
+/-- full strength: a value written with complete access (no subindex) reaches the object byte for byte -/
+def write_complete_full : Prop :=
+  ∀ (p : Params) (cnt : Nat) (sched : List Slot) (objs : List Obj) (o : Obj) (v : List UInt8),
+    Wf p → DelaysOnly sched → p.sub = none → Holds p objs o → v.length ≤ o.cap →
+    Eventually ⟨p, .write v, cnt, sched, objs⟩
+      (fun r => r.outcome = .ok [] ∧ target ⟨p, .write v, cnt, sched, objs⟩ r.objs = some v)
+
+/-- complete access, the empty value: the one download the server accepts (complete size 0 = 0 bytes) -/
+def caWitness : Setup :=
+  ⟨⟨32, 32, 0x2000, none⟩, .write [], 0, [], [⟨0x2000, 1, true, 8, [9]⟩]⟩
+
+/-- … and `subindex != subidx` compares `None` with 1: `sdo_write` raises although the server stored the value -/
+theorem caWitness_run : (system caWitness 1).outcome = .err .ethercat ∧
+    target caWitness (system caWitness 1).objs = some [] := by decide +kernel
+
+theorem write_complete_refuted : ¬ write_complete_full := by
+  intro h
+  have hwf : Wf caWitness.p := by unfold Wf subOr1; decide
+  refine not_eventually caWitness 1 _ (by decide +kernel) ?_
+    (h caWitness.p 0 [] caWitness.objs ⟨0x2000, 1, true, 8, [9]⟩ []
+      hwf delaysOnly_nil rfl (by unfold Holds; decide) (by decide))
+  rw [caWitness_run.1]
+  decide
+
+/-- what `sdo_write` does with the mail it receives after an initiate-download request -/
+def normCont (p : Params) (v : List UInt8) (td : Nat × List UInt8) : M (List UInt8) :=
+  checkDown p td.1 td.2 >>= fun _ => downStart p (min v.length (p.outSz - 16)) td.2
+
+theorem sdoWrite_norm_eq (p : Params) (v : List UInt8) (h : ¬ (v.length ≤ 4 ∧ p.sub.isSome = true)) :
+    sdoWrite p v = (mbxSend (initDownReq p v) >>= fun _ => mbxRecv >>= normCont p v) := by
+  unfold sdoWrite
+  simp only [h, if_false]
+  rfl
+
+/-- the command byte of the initiate-download request -/
+def downCmd (p : Params) : Nat := if p.sub.isNone then od_DOWN_INIT_CA else od_DOWN_INIT
+
+theorem initDownReq_eq (p : Params) (v : List UInt8) :
+    initDownReq p v = sdoHdr (coe_SDOREQ <<< 12) (downCmd p) p.index (subOr1 p) ++
+      (encLE 4 0 ++ v.take (min v.length (p.outSz - 16))) := by
+  simp [initDownReq, downCmd, zeros, encLE]
+
+theorem downCmd_facts (p : Params) : downCmd p < 256 ∧ downCmd p >>> 5 = 1 ∧ (downCmd p &&& 0x10 != 0) = p.sub.isNone ∧
+    (downCmd p &&& 2 != 0) = false ∧ (downCmd p &&& 1 == 0) = false := by
+  unfold downCmd
+  cases p.sub <;> simp <;> decide
+
+theorem initDownReq_length (p : Params) (v : List UInt8) :
+    (initDownReq p v).length = 10 + min v.length (p.outSz - 16) := by
+  rw [initDownReq_eq]; simp [sdoHdr_length]; omega
+
+/-- a conformant server refuses an initiate download whose complete size (0) is less than the data it carries -/
+theorem step_download_norm (s : Srv) (p : Params) (hwf : Wf p) (hout : 16 < p.outSz) (hout2 : p.outSz < 65536)
+    (cnt : Nat) (o : Obj) (v : List UInt8)
+    (hsz : s.outSz = p.outSz) (hfind : find s.objs p.index (subOr1 p) p.sub.isNone = some o) (h1 : 1 ≤ v.length) :
+    step s (msgOf cnt (initDownReq p v)) = abort { s with xfer := .idle } p.index (subOr1 p) abLen := by
+  obtain ⟨ho, hi, hi2, hidx, hsb⟩ := hwf
+  obtain ⟨c1, c2, c3, c4, c5⟩ := downCmd_facts p
+  have hl := initDownReq_length p v
+  have hsvc : u16 (initDownReq p v) 0 >>> 12 = 2 := by
+    rw [initDownReq_eq, u16_sdoHdr0 _ _ _ _ _ (by decide)]; decide
+  rw [step_sdo s cnt (initDownReq p v) (by omega) (by omega) (by omega) hsvc]
+  have hcmd : byte (initDownReq p v) 2 = downCmd p := by rw [initDownReq_eq, byte_sdoHdr2 _ _ _ _ _ c1]
+  rw [hcmd, c2]
+  simp only [initDownload, rd16_eq_u16, rd8_eq_byte, rd32_eq_u32, c3, c4, c5]
+  rw [initDownReq_eq, u16_sdoHdr3 _ _ _ _ _ hidx, byte_sdoHdr5 _ _ _ _ _ hsb, u32_sdoHdr6 _ _ _ _ _ _ (by decide),
+    drop10_sdoHdr]
+  have hv : v ≠ [] := by intro h; simp [h] at h1
+  have ho16 : p.outSz - 16 ≠ 0 := by omega
+  simp [hfind, hv, ho16]
+
+/-- the master takes the abort for what it is -/
+theorem normCont_abort (p : Params) (v : List UInt8) (code : Nat) (s : St) :
+    normCont p v (mbx_COE, sdoBody svcSdoReq 0x80 p.index (subOr1 p) (encLE 4 code)) s = (s, .err .ethercat) := by
+  have r1 : svcSdoReq <<< 12 < 65536 ∧ (svcSdoReq <<< 12) >>> 12 ≠ coe_SDORES := by decide
+  have hlen : ¬ (sdoHdr (svcSdoReq <<< 12) 0x80 p.index (subOr1 p) ++ encLE 4 code).length < 6 := by simp [sdoHdr_length]
+  have hc : checkDown p mbx_COE (sdoBody svcSdoReq 0x80 p.index (subOr1 p) (encLE 4 code)) s = (s, .err .ethercat) := by
+    rw [sdoBody_eq]
+    unfold checkDown
+    simp only [hlen, if_false, u16_sdoHdr0 _ _ _ _ _ r1.1, r1.2, ne_eq, not_true_eq_false, not_false_eq_true, if_true]
+    rfl
+  exact bind_err hc
+
+/-- **what is left of non-expedited downloads** (with a subindex and more than 4 bytes, or complete access and at least
+one byte): for every content, length, mailbox size above the bare header, counter and delay the server refuses the
+request, `sdo_write` raises EtherCatError, the object keeps its old value, and the one message sent fits -/
+theorem write_normal_partial (p : Params) (cnt : Nat) (sched : List Slot) (objs : List Obj) (o : Obj) (v : List UInt8)
+    (hwf : Wf p) (hout : 16 < p.outSz) (hout2 : p.outSz < 65536) (hs : DelaysOnly sched)
+    (hmode : ¬ (v.length ≤ 4 ∧ p.sub.isSome = true))
+    (h1 : 1 ≤ v.length) (hobj : Holds p objs o) :
+    ∀ n, 1 ≤ n →
+      (system ⟨p, .write v, cnt, sched, objs⟩ n).outcome = .err .ethercat ∧
+      (system ⟨p, .write v, cnt, sched, objs⟩ n).objs = objs ∧
+      (∀ m ∈ sent (system ⟨p, .write v, cnt, sched, objs⟩ n).trace, m.length ≤ p.outSz) := by
+  have hsrv := step_download_norm (init p.outSz p.inSz objs) p hwf hout hout2 cnt o v rfl hobj h1
+  simp only [abort, mail_eq] at hsrv
+  have hcoe : mbxCoE = mbx_COE := by decide
+  have hl := initDownReq_length p v
+  have hdec : decodeMail (padTo p.inSz (srvMail mbxCoE (init p.outSz p.inSz objs).cnt
+      (sdoBody svcSdoReq 0x80 p.index (subOr1 p) (encLE 4 abLen)))) =
+      .ok (mbx_COE, sdoBody svcSdoReq 0x80 p.index (subOr1 p) (encLE 4 abLen)) := by
+    rw [← hcoe]
+    exact decodeMail_srvMail _ _ _ _ (by simp [sdoBody_length]; exact hwf.2.1) (by simp [sdoBody_length]) (by decide) (by decide)
+  intro n hn
+  obtain ⟨e1, e2, _, e4⟩ := w_exchange p cnt sched objs v (initDownReq p v) (normCont p v) hs (sdoWrite_norm_eq p v hmode)
+    (by have := hwf.1; omega) (by omega) _ _ _ (.err .ethercat) hsrv hdec (normCont_abort p v abLen) n hn
+  refine ⟨e1, by rw [e2]; rfl, ?_⟩
+  rw [e4]
+  intro m hm
+  simp at hm; subst hm
+  simp; omega
+
+/-! ### zero-length expedited download -/
+
+/-- full strength: the empty value written with a subindex leaves the object empty -/
+def write_zero_expedited_full : Prop :=
+  ∀ (p : Params) (cnt : Nat) (sched : List Slot) (objs : List Obj) (o : Obj),
+    Wf p → DelaysOnly sched → p.sub.isSome = true → Holds p objs o →
+    Eventually ⟨p, .write [], cnt, sched, objs⟩
+      (fun r => r.outcome = .ok [] ∧ target ⟨p, .write [], cnt, sched, objs⟩ r.objs = some [])
+
+def zeroWitness : Setup :=
+  ⟨⟨32, 32, 0x2000, some 1⟩, .write [], 0, [], [⟨0x2000, 1, false, 8, [9]⟩]⟩
+
+/-- `((4 - 0) << 2) & 0xc` is 0: the request says "4 bytes of data", the object ends up holding four zero bytes -/
+theorem zeroWitness_run : (system zeroWitness 1).outcome = .ok [] ∧
+    target zeroWitness (system zeroWitness 1).objs = some [0, 0, 0, 0] := by decide +kernel
+
+theorem write_zero_expedited_refuted : ¬ write_zero_expedited_full := by
+  intro h
+  have hwf : Wf zeroWitness.p := by unfold Wf subOr1; decide
+  refine not_eventually zeroWitness 1 _ (by decide +kernel) ?_
+    (h zeroWitness.p 0 [] zeroWitness.objs ⟨0x2000, 1, false, 8, [9]⟩
+      hwf delaysOnly_nil (by decide) (by unfold Holds; decide))
+  intro hP
+  exact absurd (hP.2.symm.trans zeroWitness_run.2) (by decide)
+
+/-! ### expedited download with unrelated mail in the mailbox -/
+
+/-- full strength: `write_expedited_exact` under every schedule of `SchedOk`, not only delays -/
+def write_expedited_interleaved_full : Prop :=
+  ∀ (p : Params) (cnt : Nat) (sched : List Slot) (objs : List Obj) (o : Obj) (v : List UInt8),
+    Wf p → SchedOk p.inSz sched → p.sub.isSome = true → Holds p objs o → 1 ≤ v.length → v.length ≤ 4 → v.length ≤ o.cap →
+    Eventually ⟨p, .write v, cnt, sched, objs⟩
+      (fun r => r.outcome = .ok [] ∧ target ⟨p, .write v, cnt, sched, objs⟩ r.objs = some v)
+
+/-- one empty Ethernet-over-EtherCAT mail is in the send mailbox before the confirmation -/
+def mixWitness : Setup :=
+  ⟨⟨32, 32, 0x2000, some 1⟩, .write [7, 8], 0, [⟨false, [[0, 0, 0, 0, 0, 0x12]], 0⟩], [⟨0x2000, 1, false, 8, [9]⟩]⟩
+
+/-- the error message for "not CoE" mentions `odata`, which does not exist: NameError, although the value was stored -/
+theorem mixWitness_run : (system mixWitness 1).outcome = .err .nameError ∧
+    target mixWitness (system mixWitness 1).objs = some [7, 8] := by decide +kernel
+
+theorem write_expedited_interleaved_refuted : ¬ write_expedited_interleaved_full := by
+  intro h
+  have hwf : Wf mixWitness.p := by unfold Wf subOr1; decide
+  refine not_eventually mixWitness 1 _ (by decide +kernel) ?_
+    (h mixWitness.p 0 mixWitness.sched mixWitness.objs ⟨0x2000, 1, false, 8, [9]⟩ [7, 8]
+      hwf (by unfold SchedOk; decide) (by decide) (by unfold Holds; decide) (by decide) (by decide) (by decide))
+  rw [mixWitness_run.1]
+  decide
+
+/-! ## every message fits its mailbox, in the modes that work -/
+
+/-- the run's messages fit the receive mailbox and the server's mails fit the send mailbox -/
+def Fits (p : Params) (r : Result) : Prop :=
+  (∀ m ∈ sent r.trace, m.length ≤ p.outSz) ∧ (∀ rs ∈ r.responses, ∀ m ∈ rs, m.length ≤ p.inSz)
+
+/-- **fits_mailbox** for expedited upload, one-frame normal upload and expedited download -/
+theorem fits_mailbox (p : Params) (cnt : Nat) (sched : List Slot) (objs : List Obj) (o : Obj) (hwf : Wf p)
+    (hobj : Holds p objs o) :
+    (SchedOk p.inSz sched → ((1 ≤ o.val.length ∧ o.val.length ≤ 4) ∨ o.val.length + 16 ≤ p.inSz) →
+      ∀ n, 1 ≤ n → Fits p (system ⟨p, .read, cnt, sched, objs⟩ n)) ∧
+    (∀ v : List UInt8, DelaysOnly sched → p.sub.isSome = true → 1 ≤ v.length → v.length ≤ 4 → v.length ≤ o.cap →
+      ∀ n, 1 ≤ n → Fits p (system ⟨p, .write v, cnt, sched, objs⟩ n)) := by
+  constructor
+  · intro hs hlen n hn
+    obtain ⟨resp, hr, h⟩ := read_run p cnt sched objs o hwf hs hobj hlen
+    obtain ⟨_, _, h3, h4⟩ := h n hn
+    refine ⟨?_, ?_⟩
+    · rw [h4]; intro m hm; simp at hm; subst hm; simp; exact hwf.1
+    · rw [h3]; intro rs hrs m hm; simp at hrs; subst hrs; simp at hm; subst hm; exact hr
+  · intro v hs hsub h1 h4 hcap n hn
+    have hca : p.sub.isNone = false := by cases h : p.sub <;> simp [h] at hsub ⊢
+    have hobj' : find (init p.outSz p.inSz objs).objs p.index (subOr1 p) false = some o := by
+      simpa [Holds, hca, init] using hobj
+    have hsrv := step_download_exp (init p.outSz p.inSz objs) p hwf cnt o v rfl hobj' h1 h4 hcap
+    simp only [respond, mail_eq] at hsrv
+    have hcoe : mbxCoE = mbx_COE := by decide
+    have hdec : decodeMail (padTo p.inSz (srvMail mbxCoE (init p.outSz p.inSz objs).cnt
+        (sdoBody svcSdoRes 0x60 p.index (subOr1 p) (zeros 4)))) =
+        .ok (mbx_COE, sdoBody svcSdoRes 0x60 p.index (subOr1 p) (zeros 4)) := by
+      rw [← hcoe]
+      exact decodeMail_srvMail _ _ _ _ (by simp [sdoBody_length]; exact hwf.2.1) (by simp [sdoBody_length]) (by decide) (by decide)
+    obtain ⟨_, _, e3, e4⟩ := exp_exchange p cnt sched objs v hwf hs h4 hsub _ _ _ (.ok []) hsrv hdec
+      (expCont_confirm p hwf hsub) n hn
+    refine ⟨?_, ?_⟩
+    · rw [e4]; intro m hm; simp at hm; subst hm; simp [h4]; exact hwf.1
+    · rw [e3]; intro rs hrs m hm; simp at hrs; subst hrs; simp at hm; subst hm
+      simp [sdoBody_length]; exact hwf.2.1
+
+/-! ## non-vacuity: concrete inputs satisfy the hypotheses and exercise the transfers -/
+
+/-- a schedule with unrelated mail, a drain and a delay -/
+def exSched : List Slot := [⟨true, [[0, 0, 0, 0, 0, 0x12], [2, 0, 0, 0, 0, 0x21, 5, 6]], 2⟩]
+def exP : Params := ⟨32, 32, 0x2000, some 1⟩
+
+example : Wf exP ∧ SchedOk exP.inSz exSched ∧ Holds exP [⟨0x2000, 1, false, 4, [0xaa, 0xbb]⟩] ⟨0x2000, 1, false, 4, [0xaa, 0xbb]⟩ := by
+  refine ⟨by unfold Wf subOr1; decide, by unfold SchedOk; decide, by unfold Holds; decide⟩
+/-- expedited upload through unrelated mail, a drain and two empty polls -/
+example : (system ⟨exP, .read, 3, exSched, [⟨0x2000, 1, false, 4, [0xaa, 0xbb]⟩]⟩ 1).outcome = .ok [0xaa, 0xbb] := by
+  decide +kernel
+/-- normal upload of 16 bytes = `inSz − 16`, complete access -/
+example : (system ⟨⟨32, 32, 0x2000, none⟩, .read, 7, exSched,
+    [⟨0x2000, 1, true, 16, [1,2,3,4,5,6,7,8,9,10,11,12,13,14,15,16]⟩]⟩ 1).outcome
+    = .ok [1,2,3,4,5,6,7,8,9,10,11,12,13,14,15,16] := by decide +kernel
+/-- expedited download of three bytes with a delayed confirmation: the object holds them -/
+example : DelaysOnly [⟨false, [], 3⟩] ∧
+    (system ⟨exP, .write [1, 2, 3], 7, [⟨false, [], 3⟩], [⟨0x2000, 1, false, 4, [9]⟩]⟩ 1).outcome = .ok [] ∧
+    target ⟨exP, .write [1, 2, 3], 7, [⟨false, [], 3⟩], [⟨0x2000, 1, false, 4, [9]⟩]⟩
+      (system ⟨exP, .write [1, 2, 3], 7, [⟨false, [], 3⟩], [⟨0x2000, 1, false, 4, [9]⟩]⟩ 1).objs = some [1, 2, 3] := by
+  refine ⟨by unfold DelaysOnly; decide, by decide +kernel, by decide +kernel⟩
+/-- three upload segments are requested with toggles 0, 1, 0 (the transfer then fails, see `segWitness`) -/
+example : (sent (system ⟨⟨24, 24, 0x2000, some 1⟩, .read, 0, [],
+    [⟨0x2000, 1, false, 64, List.replicate 40 7⟩]⟩ 4).trace).map cmdOf = [0x40, 0x60, 0x70, 0x60] := by decide +kernel
+example : altCmds 3 0 = [0x60, 0x70, 0x60] := by decide
+/-- the witnesses of the refutations are inside the domain of the full statements -/
+example : segWitness.p.inSz < 23 + 16 ∧ Wf segWitness.p ∧ Wf normWitness.p ∧ Wf caWitness.p ∧ Wf zeroWitness.p ∧
+    Wf mixWitness.p ∧ SchedOk mixWitness.p.inSz mixWitness.sched := by
+  refine ⟨by decide, ?_, ?_, ?_, ?_, ?_, by unfold SchedOk; decide⟩ <;> (unfold Wf subOr1; decide)
 
 end Ebv.C16
